@@ -22,6 +22,8 @@ Static clauses decided (necessary conditions of C11):
          entry, and that removal depends on the OLD value only (it is not nested under a test of the new value): giving up a key
          for None / a partially-None composite must release the old value too, otherwise the value stays mapped to an object
          that no longer holds it and nobody else can take it.
+ UNDO-REG the registration clause of C13 (REG) for closures that restore index maps: no failure point is reachable after an index
+         update without the undo closure registered.
 """
 NOT_DECIDED = "consistency of the indexes across arbitrary histories (inductive invariant); class refinement on reload"
 
